@@ -35,6 +35,7 @@ type Engine struct {
 	overlay          map[string][]byte
 	LoadSeconds      float64
 	mergeCache       map[*ssa.Function]bool
+	errCtorCache     map[*ssa.Function]bool
 	mu               sync.RWMutex
 }
 
@@ -71,6 +72,7 @@ func LoadEngine(repoDir string, patterns []string, overlay map[string][]byte) (*
 		initPkgs:         map[string]bool{},
 		repoDir:          repoDir, overlay: overlay,
 		mergeCache:       map[*ssa.Function]bool{},
+		errCtorCache:     map[*ssa.Function]bool{},
 	}
 	for _, p := range prog.AllPackages() {
 		e.ssaPkgs[p.Pkg.Path()] = p
@@ -128,6 +130,7 @@ type PathResult struct {
 	Merges      int               `json:"merges,omitempty"`
 	IfConversions int             `json:"if_conversions,omitempty"`
 	FreeSplits  int               `json:"free_splits,omitempty"`
+	ModelHits   int               `json:"model_hits,omitempty"`
 	MergeAborts int               `json:"merge_aborts,omitempty"`
 	Outputs     map[string]string `json:"outputs,omitempty"`
 }
@@ -136,6 +139,7 @@ type HarnessRun struct {
 	Name       string
 	Fn         *ssa.Function
 	AllocBound int
+	MaxSymBranches int
 	BigBits    int
 	MaxSteps   int
 	MaxPaths   int
@@ -191,6 +195,26 @@ type Worker struct {
 	eng    *Engine
 	ctx    *Ctx
 	solver *Solver
+	pool   []*Model // models found while exploring the current harness
+}
+
+func (w *Worker) addModel(m map[string]*big.Int) {
+	if _, bad := m["!incomplete"]; bad {
+		return
+	}
+	mod := &Model{vals: map[int]uint64{}, memo: map[int]evalRes{}}
+	for _, v := range w.ctx.Vars {
+		if v.W > 64 {
+			continue
+		}
+		if val, ok := m[fmt.Sprintf("%s!%d", v.Name, v.W)]; ok {
+			mod.vals[v.ID] = val.Uint64()
+		}
+	}
+	w.pool = append(w.pool, mod)
+	if len(w.pool) > 48 {
+		w.pool = w.pool[len(w.pool)-48:]
+	}
 }
 
 func NewWorker(e *Engine, timeoutMs int) *Worker {
@@ -221,6 +245,7 @@ func (w *Worker) Explore(h *HarnessRun) *HarnessResult {
 	}
 	var prefix []choice
 	lazy := map[string]bool{}
+	w.pool = nil
 	for {
 		pr, trace := w.runPath(h, prefix)
 		hr.Paths++
@@ -281,6 +306,9 @@ func (w *Worker) Explore(h *HarnessRun) *HarnessResult {
 		if h.KeepPaths {
 			hr.AllPaths = append(hr.AllPaths, pr)
 		}
+		if os.Getenv("GOSYM_PATHLOG") != "" && (hr.Paths%500 == 0 || hr.Paths < 40) {
+			fmt.Fprintf(os.Stderr, "paths=%d last: end=%s msg=%s site=%s decisions=%v choices=%v model=%v\n", hr.Paths, pr.End, pr.Msg, pr.Site, pr.Decisions, pr.Choices, pr.Model)
+		}
 		// next prefix
 		i := len(trace) - 1
 		for i >= 0 && len(trace[i].Alts) == 0 {
@@ -310,7 +338,7 @@ func (w *Worker) Explore(h *HarnessRun) *HarnessResult {
 
 func (w *Worker) runPath(h *HarnessRun, prefix []choice) (pr *PathResult, trace []choice) {
 	x := &Exec{
-		eng: w.eng, ctx: w.ctx, solver: w.solver,
+		eng: w.eng, ctx: w.ctx, solver: w.solver, w: w,
 		decisions: prefix,
 		globals:   map[*ssa.Global]*Cell{},
 		symCount:  map[string]int{},
